@@ -202,7 +202,7 @@ def insert_ensures(m, stats=True):
     e = [
         CFG_FRAME,
         ('post_wf', ['C04', 'C13', 'C01', 'C03', 'C09', 'C10', 'C11', 'C05', 'C07', 'C08'], 'wf(%s, final(self).order@)' % M1),
-        ('fits_exact', ['C04', 'C03'], '(old(self).limit is None || %s.len() <= old(self).limit->Some_0) ==> '
+        ('fits_exact', ['C04', 'C03', 'C07', 'C08'], '(old(self).limit is None || %s.len() <= old(self).limit->Some_0) ==> '
          'final(self).order@ == %s && %s.dom() == %s.dom().insert(%s)' % (Q1, Q1, M1, M0, K)),
         ('overflow_one_victim', ['C04', 'C07', 'C08'], '(old(self).limit is Some && %s.len() > old(self).limit->Some_0) ==> '
          'exists|v: String, e: CacheEntry<R>| e.value == value && e.frequency == 0 '
